@@ -1091,7 +1091,10 @@ fn main() {
     }
 
     // ---- stage C: closure over add/remove histories
-    let state_cap = 40_000u64;
+    // a correct ring has one state per ordered arrangement of a subset (its join-order list is part of the
+    // state): sum_k C(U,k) k! + the empty ring; a tree whose state space explodes is cut at 4x that
+    let expected_states: u64 = 1 + n_orders;
+    let state_cap = 4 * expected_states;
     let res: Vec<Result<Closure, (bool, String, Cfg, Vec<Op>)>> = cfgs
         .iter()
         .enumerate()
@@ -1273,7 +1276,7 @@ fn main() {
         "keys": keys.len(),
         "placement_cases_nontrivial_distinct": placement_nontrivial_distinct,
         "join_order_lookups": order_evals,
-        "history_closure": {"states_sum_over_configs": cl_states, "states_per_config_values": per_cfg_states, "transitions": cl_trans,
+        "history_closure": {"states_sum_over_configs": cl_states, "states_per_config_values": per_cfg_states, "states_expected_per_config_for_a_history_independent_ring": expected_states, "state_cap_per_config": state_cap, "transitions": cl_trans,
             "effective_membership_changes": cl_eff, "deepest_level_completed": cl_depth, "fixed_point_reached_in_every_config": cl_converged,
             "lookups": cl_evals},
         "with_rf_lookups": with_rf_evals,
